@@ -254,6 +254,9 @@ def secOp (s : St) (line opS obsS : String) (op : Op) : St × Array String :=
     -- the real world observes the page only at an address learnt inside a callback
     let clauses := if s.shadow then clauses0 else
       clauses0.filter fun c => !(c == "inside_readonly" && goIn.isNone) && !(c == "reader_sees_original" && goSeen.isNone && goRes == .ok && (match op with | .read _ _ => true | _ => false))
+    -- CreateRandom under a random source that returns one byte per Read (legal for an io.Reader): the
+    -- secret must still be filled completely (the model's `rand` assumes exactly that)
+    let clauses := clauses ++ (if get kv "entropy" == some "short" then ["random_fills_whole_secret"] else [])
     let srcNote := match op, get kv "src" with
       | .new _ n, some "kept" => decide (n > 0)
       | _, _ => false
